@@ -488,6 +488,9 @@ func (e *engine) check(prop string) *checkResult {
 	if e.w.db.GlobalFrame[prop] {
 		res.obls = append(res.obls, e.globalFrameObls(prop, res)...)
 	}
+	if g := e.w.db.Grammars[prop]; g != nil {
+		res.obls = append(res.obls, e.grammarObls(prop, g)...)
+	}
 	if e.w.db.Discipline[prop] {
 		res.obls = append(res.obls, e.atomicObls(prop)...)
 		res.obls = append(res.obls, e.movedObls(prop)...)
